@@ -259,6 +259,9 @@ static void c05_phase(int G, int k, double penCells, bool dirs) {
         unsigned dl[5] = {Avoid::ConnDirAll, Avoid::ConnDirUp, Avoid::ConnDirDown, Avoid::ConnDirLeft, Avoid::ConnDirRight};
         for (size_t a = 0; a < fr.size(); a++) for (size_t b = a + 1; b < fr.size(); b++) for (int da = 0; da < (dirs ? 5 : 1); da++) for (int db = 0; db < (dirs ? 5 : 1); db++) {
             if (dirs && da == 0 && db == 0) continue;
+            // does the single permitted ray from point q hit a rectangle of the scene?  (input class of KF-C05-1)
+            auto faces = [&](P q, unsigned f) { for (auto &r : rs) { if (f == Avoid::ConnDirUp && r.x0 <= q.x && q.x <= r.x1 && r.y1 <= q.y) return true; if (f == Avoid::ConnDirDown && r.x0 <= q.x && q.x <= r.x1 && r.y0 >= q.y) return true;
+                if (f == Avoid::ConnDirLeft && r.y0 <= q.y && q.y <= r.y1 && r.x1 <= q.x) return true; if (f == Avoid::ConnDirRight && r.y0 <= q.y && q.y <= r.y1 && r.x0 >= q.x) return true; } return false; };
             ctx.count("transitions"); ctx.count("evaluations");
             try {
             Avoid::Router *r = mk_router(true, penCells * S, 0, sc);
@@ -266,7 +269,10 @@ static void c05_phase(int G, int k, double penCells, bool dirs) {
             bool diag = false, diag2 = false; double cost = ortho_cost(c->route(), penCells, diag); ortho_cost(c->displayRoute(), penCells, diag2);
             // with direction restrictions the continuum has no attained optimum (leave by epsilon, then turn), so the
             // reference is the Hanan grid of the scene: lines through rectangle sides and the two endpoints
-            if (dirs) { og.okX = hx; og.okY = hy; og.okX.push_back(fr[a].x); og.okX.push_back(fr[b].x); og.okY.push_back(fr[a].y); og.okY.push_back(fr[b].y); }
+            // Hanan lines: rectangle sides, plus through each endpoint only the line(s) along which it may be left/entered
+            if (dirs) { og.okX = hx; og.okY = hy; og.noReverse = true;
+                if (dl[da] & (Avoid::ConnDirUp | Avoid::ConnDirDown)) og.okX.push_back(fr[a].x); if (dl[da] & (Avoid::ConnDirLeft | Avoid::ConnDirRight)) og.okY.push_back(fr[a].y);
+                if (dl[db] & (Avoid::ConnDirUp | Avoid::ConnDirDown)) og.okX.push_back(fr[b].x); if (dl[db] & (Avoid::ConnDirLeft | Avoid::ConnDirRight)) og.okY.push_back(fr[b].y); }
             double o = og.best(fr[a].x, fr[a].y, fr[b].x, fr[b].y, penCells, dirmask_start(dl[da]), dirmask_end(dl[db]), dirs ? 0 : 2);
             if (o > 1e17) ctx.count("no_path_under_direction_restriction");
             string desc = mcx::fmt("segmentPenalty=%g cells dirs=(%u,%u) scene ", penCells, dl[da], dl[db]) + scene_str(sc) + mcx::fmt(" conn (%lld,%lld)->(%lld,%lld)", fr[a].x, fr[a].y, fr[b].x, fr[b].y);
@@ -278,7 +284,7 @@ static void c05_phase(int G, int k, double penCells, bool dirs) {
                 // unrestricted optimum <= cost <= optimum over restricted Hanan-grid paths (when one exists)
                 OrthoGrid og2(G, rs); double lb = og2.best(fr[a].x, fr[a].y, fr[b].x, fr[b].y, penCells, 15, 15, 2);
                 if (cost < lb - 1e-6) ctx.violation("cheaper_than_possible", {}, desc, mcx::fmt("route cost %.9g unrestricted optimum %.9g route ", cost, lb) + route_str(c->route()));
-                else if (o < 1e17 && cost > o + 1e-6) ctx.violation("costlier_than_optimal", {"direction_restricted_point"}, desc, mcx::fmt("route cost %.9g restricted Hanan optimum %.9g route ", cost, o) + route_str(c->route()));
+                else if (o < 1e17 && cost > o + 1e-6) ctx.violation("costlier_than_optimal", {faces(fr[a], dl[da]) && da && db ? "both_ends_restricted_and_source_faces_a_shape" : "direction_restricted_point_other"}, desc, mcx::fmt("route cost %.9g restricted Hanan optimum %.9g route ", cost, o) + route_str(c->route()));
                 if (cost < o - 1e-6) ctx.count("restriction_not_honoured_or_no_restricted_path");
             }
             ctx.cls("cost_minus_length_in_bends", mcx::fmt("%d", (int)lround((cost - (fabs((double)fr[a].x - fr[b].x) + fabs((double)fr[a].y - fr[b].y))) / max(penCells, 1e-9))));
